@@ -670,7 +670,54 @@ def ifexp_cases(expr, conds=()):
     if isinstance(expr, ast.IfExp):
         t = U(expr.test)
         return ifexp_cases(expr.body, conds + ((t, True),)) + ifexp_cases(expr.orelse, conds + ((t, False),))
+    # a conditional expression below the top (`(a if c else b) < x`): the expression once with each alternative
+    if isinstance(expr, ast.AST) and len(conds) < 6:
+        inner = _first_ifexp(expr)
+        if inner is not None:
+            t = U(inner.test)
+            out = []
+            for branch, outcome in ((inner.body, True), (inner.orelse, False)):
+                class _R(ast.NodeTransformer):
+                    def visit_IfExp(self, n):
+                        return copy.deepcopy(branch) if n is inner else self.generic_visit(n)
+
+                    def visit_Lambda(self, n):
+                        return n
+
+                e2 = _R().visit(_copy_keep(expr, inner))
+                out.extend(ifexp_cases(e2[0] if isinstance(e2, tuple) else e2, conds + ((t, outcome),)))
+            return out
     return [(conds, expr)]
+
+
+def _first_ifexp(expr):
+    work = [expr]
+    while work:
+        n = work.pop(0)
+        if isinstance(n, ast.IfExp):
+            return n
+        if isinstance(n, (ast.Lambda, ast.ListComp, ast.SetComp, ast.DictComp, ast.GeneratorExp)):
+            continue
+        work.extend(ast.iter_child_nodes(n))
+    return None
+
+
+def _copy_keep(expr, keep):
+    """the expression itself (the transformer below rebuilds only the path to ``keep``; identity of ``keep`` must survive, so
+    no deep copy is taken here — NodeTransformer mutates in place, therefore work on a shallow structural copy)"""
+    class _C(ast.NodeTransformer):
+        def generic_visit(self, node):
+            if node is keep:
+                return node
+            new = copy.copy(node)
+            for field, old in ast.iter_fields(node):
+                if isinstance(old, list):
+                    setattr(new, field, [self.visit(x) if isinstance(x, ast.AST) else x for x in old])
+                elif isinstance(old, ast.AST):
+                    setattr(new, field, self.visit(old))
+            return new
+
+    return _C().visit(expr)
 
 
 def value_cases(fv, at, expr, stop=()):
